@@ -55,10 +55,15 @@ var c14Faults = []error{
 type c14Case struct {
 	State string   `json:"state"` // normal readonly ratelimited drain connlimited
 	Reqs  []c14Req `json:"reqs"`
+	// Odd > 0: the backend reports /e7 as something that is neither a regular file, a directory nor a symlink
+	// (1 irregular, 2 character device bit alone, 3 named pipe, 4 socket, 5 device); replies describing it still carry a
+	// member of ftype3
+	Odd int `json:"odd,omitempty"`
 }
 
 func genC14(t *rapid.T) c14Case {
 	c := c14Case{State: pick(t, "state", "normal", "normal", "readonly", "ratelimited", "drain", "connlimited", "faulty", "faulty")}
+	c.Odd = pick(t, "odd", 0, 0, 1, 2, 3, 4, 5)
 	n := rapid.IntRange(1, 12).Draw(t, "n")
 	for i := 0; i < n; i++ {
 		r := c14Req{
@@ -206,6 +211,9 @@ func runC14(tb stat.TB, c c14Case) {
 	v.SeedSymlink("/l", "f", 0, 0)
 	for i := 0; i < 8; i++ {
 		v.SeedFile(fmt.Sprintf("/e%d", i), 0644, 0, 0, []byte("e"))
+	}
+	if c.Odd > 0 {
+		v.SetRawMode("/e7", []os.FileMode{0, os.ModeIrregular, os.ModeCharDevice, os.ModeNamedPipe, os.ModeSocket, os.ModeDevice}[c.Odd]|0644)
 	}
 	opts := absnfs.ExportOptions{AttrCacheTimeout: 1, AttrCacheSize: 4, ReadOnly: c.State == "readonly"}
 	if c.State == "ratelimited" || c.State == "connlimited" {
